@@ -139,7 +139,12 @@ class ZipReader(AbstractReader):
                     members[innerFilename].extend(ref)
 
             else:
-                mtime = time.mktime(datetime.datetime(*member.date_time[:6]).timetuple())
+                try:
+                    mtime = time.mktime(datetime.datetime(*member.date_time[:6]).timetuple())
+
+                except ValueError:
+                    # no valid time stamp (some archivers write zeroes)
+                    mtime = 0
 
                 members[filename] = [[fileObj, member.filename, mtime]]
 
